@@ -49,6 +49,25 @@ var alphabet = []symbol{
 	{"exchange", "zero-key"}, {"exchange", "hkdf-of-empty-secret"}, {"exchange", "random-key"}, {"exchange", "signed-by-other-key"},
 	{"exchange", "permuted-material"}, {"exchange", "name-swapped"}, {"exchange", "key-swapped"},
 	{"step", "0"}, {"step", "7"}, {"step", "255"}, {"method", "1"}, {"method", "3"}, {"method", "4"},
+	// a complete, consistent SRP run with a password anybody can know (see publicGuesses); the key exchange that follows is
+	// sealed under the key of THAT run
+	{"verify", "guess:accessory-id"}, {"verify", "guess:accessory-name"}, {"verify", "guess:empty"}, {"verify", "guess:srp-user"}, {"verify", "guess:code-digits"}, {"verify", "guess:library-default"},
+}
+
+var guessNames = []string{"accessory-id", "accessory-name", "empty", "srp-user", "code-digits", "library-default"}
+
+// publicGuesses are passwords a peer WITHOUT the setup code can try: what the accessory advertises (its id, its name),
+// the fixed SRP user name, the empty string, the code's digits without the dashes (not the code: hc's SRP password is
+// XXX-XX-XXX) and the default pin of the library's examples.
+func publicGuesses(code, accID, accName string) map[string]string {
+	g := map[string]string{"accessory-id": accID, "accessory-name": accName, "empty": "", "srp-user": "Pair-Setup",
+		"code-digits": strings.Replace(code, "-", "", -1), "library-default": "001-02-003"}
+	for k, v := range g {
+		if v == code {
+			g[k] = "not-" + v
+		}
+	}
+	return g
 }
 
 // short alphabet for the exhaustive part (16 symbols as in DESIGN)
@@ -80,6 +99,9 @@ type world struct {
 	lastGoodLTPK, lastGoodK []byte
 	fixedConns              []int             // when set: the connection of each step (targeted histories)
 	expect                  map[string][]byte // model of stored controllers: name -> ltpk
+	public                  map[string]string // see publicGuesses
+	storedNow               map[string][]byte // the snapshot before the message that is being built
+	intruders               int
 }
 
 // transport abstracts "send a pair-setup message on connection i and get the answer".
@@ -132,8 +154,19 @@ func build(w *world, p *peer, s symbol) built {
 				code = "999-99-997"
 			}
 		}
+		if strings.HasPrefix(s.Var, "guess:") {
+			code = w.public[s.Var[6:]]
+		}
 		if err := cl.Compute(salt, B, code); err != nil {
 			return built{msg: refctl.SetupM3(cl.Abytes, make([]byte, 64))}
+		}
+		if strings.HasPrefix(s.Var, "guess:") {
+			// the peer keeps the key of its own run: a following key exchange is sealed under it (not a proof of the code)
+			if p.started {
+				p.srp = cl
+			}
+			run.Count("verify_with_public_guess", 1)
+			return built{msg: refctl.SetupM3(cl.Abytes, cl.M1)}
 		}
 		switch s.Var {
 		case "replay-recorded":
@@ -198,6 +231,13 @@ func build(w *world, p *peer, s symbol) built {
 			K = p.srp.K
 		}
 		me := p.me
+		if _, in := w.storedNow[me.ID]; in && s.Var != "genuine" && s.Var != "replay" {
+			// the peer's own pairing is stored already: storing the very same (name, key) again would not be observable,
+			// so a forged exchange presents a new identity
+			w.intruders++
+			me = refctl.NewIdentity(fmt.Sprintf("intruder-%d-%s", w.intruders, p.me.ID), w.rnd)
+			run.Count("forged_exchanges_with_a_new_identity_after_a_store", 1)
+		}
 		encKey := refctl.SetupEncKey(K)
 		sub := refctl.SetupM5Plain(K, me.ID, me.LTPK, me.LTSK)
 		b := built{name: me.ID, ltpk: me.LTPK}
@@ -347,6 +387,7 @@ func runHistory(hno int, tr transport, w *world, seq []symbol, nconn int, harnes
 			trace = append(trace, map[string]interface{}{"step": step, "admin": "removed pairing " + w.lastStored})
 			continue
 		}
+		w.storedNow = prev
 		b := build(w, p, s)
 		status, body, dropped := tr.send(ci, b.msg)
 		run.Count(harness+"_messages", 1)
@@ -541,7 +582,7 @@ func randomCode(rnd *rand.Rand) string {
 func main() {
 	run = vf.Start("C02", "exploration")
 	r := run
-	r.SetRule("a history = (setup code, controller identities, 1 or 2 connections sharing one database, sequence over the pair-setup alphabet of 26 symbols); every sequence up to length 2 (quick) / 3 (thorough) over a 16-symbol core alphabet, " +
+	r.SetRule("a history = (setup code, controller identities, 1 or 2 connections sharing one database, sequence over the pair-setup alphabet of 36 symbols (6 of them complete SRP runs with a password anybody can know: accessory id / name, empty, the SRP user name, the code's digits, the library's default pin)); every sequence up to length 2 (quick) / 3 (thorough) over a 16-symbol core alphabet, " +
 		"the known critical prefixes followed by every symbol, and random sequences of length 3..8; after every message the stored entities are compared with the previous snapshot; non-trivial = distinct (harness, connections, sequence)")
 	r.Assume("the monitor builds every message itself and therefore knows whether the connection proved knowledge of the setup code; crypto/ed25519, x/crypto AEAD are correct")
 	r.Watchdog(time.Duration(r.Pick(20, 90)) * time.Minute)
@@ -557,7 +598,7 @@ func main() {
 			return
 		}
 		defer os.RemoveAll(ip.dir)
-		w := &world{code: code, rnd: rand.New(rand.NewSource(r.Seed*31 + int64(hno)))}
+		w := &world{code: code, rnd: rand.New(rand.NewSource(r.Seed*31 + int64(hno))), public: publicGuesses(code, ip.own, "C02")}
 		r.Guard("history", func() { runHistory(hno, ip, w, seq, nconn, "inproc") })
 	}
 	// exhaustive short sequences over the core alphabet
@@ -590,6 +631,11 @@ func main() {
 		{{"start", ""}, {"verify", "right"}, {"exchange", "genuine"}},
 		{{"start", ""}, {"verify", "right"}, {"start", ""}},
 		{{"start", ""}, {"verify", "right"}, {"exchange", "tampered-tag"}},
+		// after a completed exchange the first start is refused, the second accepted
+		{{"start", ""}, {"verify", "right"}, {"exchange", "genuine"}, {"start", ""}, {"start", ""}},
+	}
+	for _, g := range guessNames {
+		prefixes = append(prefixes, []symbol{{"start", ""}, {"verify", "guess:" + g}})
 	}
 	for _, p := range prefixes {
 		for _, s := range alphabet {
@@ -623,7 +669,7 @@ func main() {
 				r.Inconclusive("inproc setup: " + err.Error())
 				continue
 			}
-			w := &world{code: code, rnd: rand.New(rand.NewSource(r.Seed*37 + int64(hno))), fixedConns: replayConns[i]}
+			w := &world{code: code, rnd: rand.New(rand.NewSource(r.Seed*37 + int64(hno))), fixedConns: replayConns[i], public: publicGuesses(code, ip.own, "C02")}
 			if same {
 				w.fixedConns = make([]int, len(seq)) // everything on one connection
 			}
@@ -664,6 +710,28 @@ func main() {
 			}
 		}
 	}
+	// after K failed attempts (and after a completed exchange) on the same connection: a complete run with each public guess
+	gk := []int{1, 2, 3}
+	if r.Thorough() {
+		gk = []int{1, 2, 3, 10, 100}
+	}
+	for _, g := range guessNames {
+		tail := []symbol{{"start", ""}, {"verify", "guess:" + g}, {"exchange", "genuine"}}
+		for _, k := range gk {
+			for _, f := range fails {
+				var seq []symbol
+				for i := 0; i < k; i++ {
+					seq = append(seq, symbol{"start", ""}, symbol{"verify", f})
+				}
+				inprocDo(append(seq, tail...), 1)
+				r.Count("guess_after_failures_histories", 1)
+			}
+		}
+		inprocDo(append([]symbol{{"start", ""}, {"verify", "right"}, {"exchange", "genuine"}, {"start", ""}}, tail...), 1)
+		inprocDo(append([]symbol{{"start", ""}, {"verify", "right"}, {"exchange", "genuine"}, {"admin", "remove-stored"}, {"start", ""}}, tail...), 1)
+		inprocDo(append([]symbol{{"start", ""}, {"verify", "right"}, {"start", ""}}, tail...), 1)
+		inprocDo(append([]symbol{{"start", ""}, {"exchange", "zero-key"}}, tail...), 1)
+	}
 	n := r.Pick(300, 5000)
 	for i := 0; i < n; i++ {
 		k := 3 + rnd.Intn(6)
@@ -690,7 +758,10 @@ func main() {
 		r.Inconclusive("transport: " + err.Error())
 	} else {
 		fs := &fullstack{a: a}
-		w := &world{code: app.FormatCode(pin), rnd: r.Rand("c02-fs")}
+		w := &world{code: app.FormatCode(pin), rnd: r.Rand("c02-fs"), public: publicGuesses(app.FormatCode(pin), a.TXT()["id"], "C02")}
+		if a.TXT()["id"] == "" {
+			r.Inconclusive("the transport advertises no id")
+		}
 		nfs := r.Pick(150, 3000)
 		for i := 0; i < nfs; i++ {
 			var seq []symbol
@@ -729,5 +800,7 @@ func main() {
 	r.Floor("inproc_messages", int(r.Counter("inproc_messages")), 1500)
 	r.Floor("fullstack_messages", int(r.Counter("fullstack_messages")), 400)
 	r.Floor("legitimate_stores", int(r.Counter("legitimate_stores")), 10)
+	r.Floor("verify_with_public_guess", int(r.Counter("verify_with_public_guess")), 150)
+	r.Floor("forged_exchanges_with_a_new_identity_after_a_store", int(r.Counter("forged_exchanges_with_a_new_identity_after_a_store")), 10)
 	r.Finish()
 }
